@@ -245,7 +245,7 @@ def run(chk, facts, tier, only=None):
                 n += 1
                 ga = ((t.get("f") or {}).get("k") or {}).get("ga") or []
                 d = ga[-1] if ga else ""
-                if re.search(r"serde(_core)?::de::value::\w+Deserializer<", d):
+                if re.match(r"^[\w:]*::de::value::\w+Deserializer<", d):
                     bare.append((re.search(r"(\w+Deserializer)<", d) or [None, d])[1])
         chk.floor("element dispatches of the primitive-vector fast path", n, 11)
         chk.expect(not bare, "fast-path-element:newtype-transparent",
